@@ -26,7 +26,10 @@ def gen_command(rng, rows, cols):
     x = rng.random()
     p = lambda: gen_params(rng, rows, cols)
     if x < 0.30:
-        return ''.join(rng.choice('abcXYZ é☃') for _ in range(rng.randint(1, 4)))
+        # characters are cells one by one: also combining marks, a base letter followed by its mark, conjoining jamo, characters
+        # with a canonical equivalent - nothing may fold, reorder or rewrite them, whichever way the input is cut
+        return ''.join(rng.choice(['a', 'b', 'c', 'X', 'Y', 'Z', ' ', 'é', '☃', 'e\u0301', '\u0301', 'A\u030a', '\u1100\u1161', '\u2329', '\u212b', 'ﬁ'])
+                       for _ in range(rng.randint(1, 4)))
     if x < 0.40:
         return rng.choice(['\r', '\n', '\x08', '\r\n', '\t', '\x00', '\x7f'])
     if x < 0.50:
@@ -94,7 +97,7 @@ def run(ctx):
         text = ''.join(gen_command(rng, rows, cols) for _ in range(rng.randint(1, 8)))
         mode = rng.choice(['str', 'str', 'utf-8', 'latin-1'])
         if mode == 'latin-1':
-            text = text.replace('☃', '~')
+            text = ''.join(ch if ord(ch) < 256 else '~' for ch in text)
         data = text if mode == 'str' else text.encode(mode)
         if mode == 'utf-8' and rng.random() < 0.35:
             # malformed input: truncated / stray multi-byte sequences in between (the decoder replaces them); the text the
